@@ -171,6 +171,16 @@ def ejson_agreement(ctx):
                     detail += ' (the format written with never pads the year)'
         run.check(ok, 'R16', where(repo, test), d.qualname, '%s: %s <-> %s' % (tag, ptxt[:60], btxt[:60]),
                   'what the encoder writes for %s is not what the decoder reads' % tag, detail=detail)
+    # what the payload of a time / datetime carries: the value down to the microsecond (a format with %f, isoformat(), or the
+    # microsecond as a component of its own) - a resumed run otherwise sees the values truncated to whole seconds
+    for tag in (('type{datetime}', 'type{time}') if ctx.run.prop == 'C07' else ()):      # (value fidelity: C07's statement, not C02's)
+        if tag in et:
+            ptxt_ = u(et[tag][1])
+            fmts_ = [x for nm_ in fmt_names(ctx, et[tag][1]) for x in tables.const_set(ctx, EJ, nm_)]
+            carries = 'microsecond' in ptxt_ or 'isoformat(' in ptxt_ or any('%f' in str(x) for x in fmts_)
+            run.check(carries, 'R16', where(repo, et[tag][0]), d.qualname, '%s carries the microsecond' % tag,
+                      'the %s payload is written with a format that stops at the second: a value with microseconds resumes from the '
+                      'checkpoint truncated' % tag)
     # datetime payload: 3-tuple <-> 3-unpack, offset in seconds <-> timedelta(seconds=)
     if 'type{datetime}' in et and 'type{datetime}' in dt:
         cases = et['type{datetime}'][2]
